@@ -62,10 +62,27 @@ pub(crate) mod verif_envelope {
             }
             let seen = *self.seen.borrow();
             match seen {
-                Some(k) if encrypted_dek.len() == WL && encrypted_dek.as_slice() == &self.wrapped[..] => Ok(k.to_vec()),
+                Some(k) if encrypted_dek.len() == WL && same_bytes(encrypted_dek, &self.wrapped) => Ok(k.to_vec()),
                 _ => Err(KmsError::OperationFailed(String::new())),
             }
         }
+    }
+
+    /// byte-wise comparison in an ordinary loop (bounded by the harness' own unwind value; slice ==
+    /// is CBMC's memcmp, whose separate bound of 70 is too small for long wrapped keys)
+    fn same_bytes(a: &[u8], b: &[u8]) -> bool {
+        if a.len() != b.len() {
+            return false;
+        }
+        let mut i = 0;
+        let mut same = true;
+        while i < a.len() {
+            if a[i] != b[i] {
+                same = false;
+            }
+            i += 1;
+        }
+        same
     }
 
     pub fn new_kms<const WL: usize>(fault: Fault) -> IdealKms<WL> {
@@ -179,6 +196,10 @@ pub(crate) mod verif_envelope {
     c14!(c14_roundtrip_p32_w32, 32, 32, 96, 0, 0, Fault::None, 40);
     //@ harness c14_roundtrip_p64_w48 tier=quick shape="seed 64 B, wrapped key 48 B"
     c14!(c14_roundtrip_p64_w48, 64, 48, 144, 0, 0, Fault::None, 60);
+    //@ harness c14_roundtrip_p32_w600 tier=thorough shape="seed 32 B, wrapped key 600 B (providers may return up to 1024)" timeout=900 required=no
+    c14!(c14_roundtrip_p32_w600, 32, 600, 664, 0, 0, Fault::None, 610);
+    //@ harness c14_roundtrip_p32_w1024 tier=thorough shape="seed 32 B, wrapped key 1024 B" required=no
+    c14!(c14_roundtrip_p32_w1024, 32, 1024, 1088, 0, 0, Fault::None, 1030);
     //@ harness c14_tamper_p32_w32 tier=thorough shape="seed 32 B, wrapped 32 B: any single byte at any position >= 4 xor any nonzero value"
     c14!(c14_tamper_p32_w32, 32, 32, 96, 1, 0, Fault::None, 40);
     //@ harness c14_tamper_wrapped_key tier=quick shape="any single byte of the wrapped key xor any nonzero value" timeout=600
